@@ -123,6 +123,25 @@ POOL_FORMS_NAMES = [
     "e1 [independent copy, integrand of F1]",
 ]
 
+def pool_formsig():
+    """forms with EQUAL signatures that are not equal (they differ in coefficient numbering only); events also
+    include computing (and thereby caching) a form's signature, written pK==pK."""
+    a, b = _base(), _base()
+    F0 = ufl.sin(a["f"]) * ufl.dx(domain=a["m1"])
+    F1 = ufl.sin(a["g"]) * ufl.dx(domain=a["m1"])  # same signature as F0 after renumbering, F1 != F0
+    F2 = ufl.sin(b["f"]) * ufl.dx(domain=b["m1"])  # equal to F0
+    F3 = (a["f"] * a["g"]) * ufl.dx(domain=a["m1"])
+    return [F0, F1, F2, F3]
+
+
+POOL_FORMSIG_NAMES = [
+    "F0=sin(f)*dx",
+    "F1=sin(g)*dx [same signature as F0, not equal]",
+    "F2=sin(f)*dx [independent copy of F0]",
+    "F3=f*g*dx",
+]
+
+
 def pool_bfo():
     """operators that carry data besides their operands (ExternalOperator derivatives / function space)."""
     a, b = _base(), _base()
@@ -148,7 +167,22 @@ POOLS = {
     "ext": (pool_ext, POOL_EXT_NAMES),
     "forms": (pool_forms, POOL_FORMS_NAMES),
     "bfo": (pool_bfo, POOL_BFO_NAMES),
+    "formsig": (pool_formsig, POOL_FORMSIG_NAMES),
 }
+
+SELF_EVENT_POOLS = {"formsig"}  # pools in which pK==pK stands for "compute the signature of pK"
+
+
+def events_of(poolname, n):
+    return [(p, q) for p in range(n) for q in range(n) if p != q or poolname in SELF_EVENT_POOLS]
+
+
+def ev_name(p, q):
+    return f"signature(p{p})" if p == q else f"p{p}==p{q}"
+
+
+def same_result(r, b):
+    return type(r) is type(b) and r == b
 
 
 # -------------------------------------------------------------------------------------------------
@@ -157,6 +191,9 @@ POOLS = {
 
 
 def EQ(a, b):
+    if a is b:
+        # self event: compute (and cache) the signature
+        return a.signature()
     if isinstance(a, ufl.Form):
         return a.equals(b)
     return a == b
@@ -212,25 +249,25 @@ def run_history(poolname, hist, ref, base, with_value):
     pool = build()
     out = []
     results = []
-    hname = " ; ".join(f"p{p}==p{q}" for p, q in hist)
+    hname = " ; ".join(ev_name(p, q) for p, q in hist)
     nontrivial = False
     for p, q in hist:
         r = EQ(pool[p], pool[q])
         results.append(r)
         if r is True and pool[p] is not pool[q]:
             nontrivial = True
-        if r is not base[(p, q)]:
+        if not same_result(r, base[(p, q)]):
             out.append(
                 (
-                    f"history-result:{poolname}:p{p}==p{q}",
-                    f"p{p}==p{q} gives {r!r} after [{hname}] but {base[(p, q)]!r} on a fresh pool",
+                    f"history-result:{poolname}:{ev_name(p, q)}",
+                    f"{ev_name(p, q)} gives {r!r} after [{hname}] but {base[(p, q)]!r} on a fresh pool",
                 )
             )
     # recompute every comparison of the history
     for (p, q), r in zip(hist, results):
         r2 = EQ(pool[p], pool[q])
-        if r2 is not r:
-            out.append((f"history-result:{poolname}:p{p}==p{q}", f"p{p}==p{q} first gave {r!r}, recomputed after [{hname}] gives {r2!r}"))
+        if not same_result(r2, r):
+            out.append((f"history-result:{poolname}:{ev_name(p, q)}", f"{ev_name(p, q)} first gave {r!r}, recomputed after [{hname}] gives {r2!r}"))
     # every pool object is observationally what it is on an untouched pool
     for k, o in enumerate(pool):
         try:
@@ -265,11 +302,9 @@ def reference(poolname):
         ref.append(d)
     n = len(pool)
     base = {}
-    for p in range(n):
-        for q in range(n):
-            if p != q:
-                fresh = build()
-                base[(p, q)] = EQ(fresh[p], fresh[q])
+    for p, q in events_of(poolname, n):
+        fresh = build()
+        base[(p, q)] = EQ(fresh[p], fresh[q])
     return ref, base
 
 
@@ -278,7 +313,7 @@ def hist_worker(chunk):
     for poolname, prefix, max_tail, vlen in chunk:
         ref, base = G["ref"][poolname]
         n = len(ref)
-        events = [(p, q) for p in range(n) for q in range(n) if p != q]
+        events = events_of(poolname, n)
         # all histories prefix + tail with len(tail) <= max_tail
         for extra in range(0, max_tail + 1):
             for tail in itertools.product(events, repeat=extra):
@@ -300,8 +335,8 @@ def hist_worker(chunk):
 def plan(quick):
     # (pool, max history length, max length with the value check)
     if quick:
-        return [("core", 3, 2), ("ext", 2, 2), ("forms", 2, 0), ("bfo", 2, 0)]
-    return [("core", 4, 3), ("ext", 3, 3), ("forms", 3, 0), ("bfo", 3, 0)]
+        return [("core", 3, 2), ("ext", 2, 2), ("forms", 2, 0), ("bfo", 2, 0), ("formsig", 3, 0)]
+    return [("core", 4, 3), ("ext", 3, 3), ("forms", 3, 0), ("bfo", 3, 0), ("formsig", 4, 0)]
 
 
 def history_items(run, quick):
@@ -318,7 +353,7 @@ def history_items(run, quick):
                 if ref[k][field] != v:
                     raise RuntimeError(f"pool {poolname} is not deterministic in {field} of p{k}")
         run.outcomes.update(f"{poolname}:p{p}==p{q}:{r}" for (p, q), r in base.items())
-        events = [(p, q) for p in range(n) for q in range(n) if p != q]
+        events = events_of(poolname, n)
         # shards: every single event alone, and every 2-event prefix with all its extensions
         for e in events:
             items.append((poolname, (e,), 0, vlen))
